@@ -8,6 +8,7 @@ import (
 	"os/exec"
 	"strconv"
 	"sync"
+	"time"
 )
 
 // Pool is a set of long-lived worker processes of this binary ("verif mapworker <ID>") that apply a
@@ -72,9 +73,13 @@ func NewPool(id, tier string, n int) (*Pool, error) {
 					it.wg.Done()
 					continue
 				}
+				// a worker that never answers (a deadlock inside the code under check) is killed after ten minutes:
+				// the run then ends as a harness error instead of hanging; no verdict depends on this deadline
+				watchdog := time.AfterFunc(10*time.Minute, func() { w.cmd.Process.Kill() })
 				line, err := w.out.ReadBytes('\n')
+				watchdog.Stop()
 				if err != nil {
-					p.fail(fmt.Errorf("worker died while processing item %d: %v", it.idx, err))
+					p.fail(fmt.Errorf("worker died (or was killed after 10 minutes without an answer) while processing item %d: %v", it.idx, err))
 					it.wg.Done()
 					continue
 				}
